@@ -1240,3 +1240,72 @@ func c19FullScans(c *Ctx, r *Report) {
 	}
 	r.ok(rule, "scan", "", fmt.Sprintf("%d downward index loops in the generator packages examined", nLoops))
 }
+
+// c19ConstIndex (C19-R5-const-index, after wave-13 seed C19-N): in the generator packages an element
+// x[k] with a constant k of a slice read from a struct field needs a dominating length test of the same
+// slice (len(x) > k in one of its spellings). "The first sub-field", "the first component" exist for
+// every row of the shipped workbooks and for none of the rows a product profile switches off: an
+// unguarded x[0] is where the generator stops with an index-out-of-range panic for such a profile.
+// Examined: slices, read from a struct field, of the generator's own structure types (fields,
+// sub-fields, components, messages). Rows of cells (fixed width given by the parser), results of
+// calls (strings.Split always yields one element) and local literals are not.
+func c19ConstIndex(c *Ctx, r *Report) {
+	const rule = "C19-R5-const-index"
+	n := 0
+	for _, fn := range c.moduleFuncs() {
+		if pp := fnPkgPath(fn); pp != genPath && pp != mainPath {
+			continue
+		}
+		idx := 0
+		for _, b := range fn.Blocks {
+			for _, ins := range b.Instrs {
+				ia, ok := ins.(*ssa.IndexAddr)
+				if !ok {
+					continue
+				}
+				k, isK := ia.Index.(*ssa.Const)
+				if !isK || k.Value == nil {
+					continue
+				}
+				slt, isSl := ia.X.Type().Underlying().(*types.Slice)
+				if !isSl {
+					continue
+				}
+				// lists of the generator's own structures (fields, sub-fields, components, messages): these are
+				// what a product profile makes empty. Rows of cells have a fixed width given by the parser.
+				el := slt.Elem()
+				if pt, isP := el.Underlying().(*types.Pointer); isP {
+					el = pt.Elem()
+				}
+				nm, isNamed := el.(*types.Named)
+				if !isNamed || nm.Obj().Pkg() == nil || nm.Obj().Pkg().Path() != genPath {
+					continue
+				}
+				if _, isSt := nm.Underlying().(*types.Struct); !isSt {
+					continue
+				}
+				// a slice loaded from a struct field
+				ld, isLd := ia.X.(*ssa.UnOp)
+				if !isLd || ld.Op != token.MUL {
+					continue
+				}
+				if _, isFA := ld.X.(*ssa.FieldAddr); !isFA {
+					continue
+				}
+				n++
+				idx++
+				why, ok2 := lenGuarded(fn, b, ia.X, k.Int64())
+				if !ok2 {
+					// inside a range over the same slice's parent? not recognised: report
+					why = ""
+				}
+				key := fmt.Sprintf("%s/%s[%d]#%d", fn.Name(), strings.TrimPrefix(stripAddrs(pathOf(ia.X)), "*"), k.Int64(), idx)
+				if os.Getenv("C19_DUMP") != "" {
+					fmt.Println("C19IDX", c.pos(ia.Pos()), key, ok2)
+				}
+				r.check(ok2, rule, key, c.pos(ia.Pos()), why, "element "+fmt.Sprint(k.Int64())+" of "+strings.TrimPrefix(stripAddrs(pathOf(ia.X)), "*")+" is read without a length test of that slice: for a profile in which the list is empty (rows switched off) the generator stops with an index-out-of-range panic")
+			}
+		}
+	}
+	r.set("constant_index_sites_on_field_slices", n)
+}
